@@ -47,10 +47,23 @@ static pc_t real_pthread_create; static pj_t real_pthread_join;
 static ssize_t (*real_write)(int, const void *, size_t);
 static ssize_t (*real_read)(int, void *, size_t);
 static int (*real_close)(int);
+#ifdef TSIM_TSAN
+#if 1
+// the sanitizer runtime is linked statically into this executable, so RTLD_NEXT would skip its interceptors
+extern "C" int __interceptor_pthread_create(pthread_t *, const pthread_attr_t *, void *(*)(void *), void *);
+extern "C" int __interceptor_pthread_join(pthread_t, void **);
+#define HAVE_TSAN_INTERCEPTORS 1
+#endif
+#endif
 static void resolve() {
   if (real_pthread_create) return;
+#ifdef HAVE_TSAN_INTERCEPTORS
+  real_pthread_create = __interceptor_pthread_create;
+  real_pthread_join = __interceptor_pthread_join;
+#else
   real_pthread_create = (pc_t)dlsym(RTLD_NEXT, "pthread_create");
   real_pthread_join = (pj_t)dlsym(RTLD_NEXT, "pthread_join");
+#endif
   real_write = (ssize_t(*)(int, const void *, size_t))dlsym(RTLD_NEXT, "write");
   real_read = (ssize_t(*)(int, void *, size_t))dlsym(RTLD_NEXT, "read");
   real_close = (int (*)(int))dlsym(RTLD_NEXT, "close");
@@ -95,8 +108,23 @@ static void ev(const char *fmt, ...) {
 static void flush_ev() { resolve(); size_t o = 0; while (o < evbuf.size()) { ssize_t k = real_write(1, evbuf.data() + o, evbuf.size() - o); if (k <= 0) break; o += k; } evbuf.clear(); }
 static void die(const char *what) { ev("%s", what); flush_ev(); _exit(75); }
 
-static void futex_wait(std::atomic<int> *a) { while (a->load() == 0) syscall(SYS_futex, (int *)a, FUTEX_WAIT, 0, NULL, NULL, 0); a->store(0); }
-static void futex_wake(std::atomic<int> *a) { a->store(1); syscall(SYS_futex, (int *)a, FUTEX_WAKE, 1, NULL, NULL, 0); }
+#ifdef TSIM_TSAN
+#define TSAN_ON 1
+#endif
+#ifdef TSAN_ON
+extern "C" void __tsan_acquire(void *addr); extern "C" void __tsan_release(void *addr);
+#define NOTSAN __attribute__((no_sanitize("thread")))
+#define TS_ACQ(p) __tsan_acquire((void *)(p))
+#define TS_REL(p) __tsan_release((void *)(p))
+#else
+#define NOTSAN
+#define TS_ACQ(p)
+#define TS_REL(p)
+#endif
+// parking uses raw futex words and uninstrumented accesses, so that the scheduler itself adds no happens-before
+// edges between the threads it serialises (TSan must still see unsynchronised sharing in the code under test)
+NOTSAN static void futex_wait(std::atomic<int> *a) { int *w = (int *)a; while (__atomic_load_n(w, __ATOMIC_RELAXED) == 0) syscall(SYS_futex, w, FUTEX_WAIT, 0, NULL, NULL, 0); __atomic_store_n(w, 0, __ATOMIC_RELAXED); }
+NOTSAN static void futex_wake(std::atomic<int> *a) { int *w = (int *)a; __atomic_store_n(w, 1, __ATOMIC_RELAXED); syscall(SYS_futex, w, FUTEX_WAKE, 1, NULL, NULL, 0); }
 
 static bool eventfd_readable(); static bool stdin_readable();
 static bool wakeable(Th *t) {
@@ -157,7 +185,9 @@ static void *trampoline(void *p) {
   Th *t = (Th *)p;
   my_id = t->id;
   futex_wait(&t->go);
+  TS_ACQ(t);
   t->ret = t->fn(t->arg);
+  TS_REL(t);
   t->st = DONE;
   ev("thread_exit");
   schedule();          // never returns to us as runnable; falls through when the process ends
@@ -168,6 +198,7 @@ extern "C" int pthread_create(pthread_t *th, const pthread_attr_t *attr, void *(
   if (!sim_on) return real_pthread_create(th, attr, fn, arg);
   Th *t = new Th; t->id = (int)ths.size(); t->fn = fn; t->arg = arg;
   ths.push_back(t);
+  TS_REL(t);
   int r = real_pthread_create(&t->real, attr, trampoline, t);
   if (r) die("real pthread_create failed");
   *th = t->real;
@@ -185,6 +216,7 @@ extern "C" int pthread_join(pthread_t th, void **ret) {
   Th *me = ths[my_id];
   if (t->st != DONE) { me->st = B_JOIN; me->join_target = t->id; schedule(); }
   t->joined = true;
+  TS_ACQ(t);
   if (ret) *ret = t->ret;
   return 0;
 }
@@ -193,34 +225,38 @@ extern "C" int pthread_mutex_lock(pthread_mutex_t *m) {
   yield_point();
   Mx &x = mxs[m];
   Th *me = ths[my_id];
-  if (x.owner == -1) { x.owner = my_id; return 0; }
+  if (x.owner == -1) { x.owner = my_id; TS_ACQ(m); return 0; }
   if (x.owner == my_id) die("SELF-DEADLOCK relock of a non-recursive mutex");
   me->st = B_MUTEX; me->obj = m; stats["mutex_contended"]++;
   schedule();
+  TS_ACQ(m);
   return 0;
 }
 extern "C" int pthread_mutex_trylock(pthread_mutex_t *m) {
   if (!sim_on || my_id < 0) return 0;
   yield_point();
   Mx &x = mxs[m];
-  if (x.owner == -1) { x.owner = my_id; return 0; }
+  if (x.owner == -1) { x.owner = my_id; TS_ACQ(m); return 0; }
   return EBUSY;
 }
 extern "C" int pthread_mutex_unlock(pthread_mutex_t *m) {
   if (!sim_on || my_id < 0) return 0;
   Mx &x = mxs[m];
   if (x.owner != my_id) ev("unlock_not_owner");
+  TS_REL(m);
   x.owner = -1;
   yield_point();
   return 0;
 }
 static int cond_wait_common(pthread_cond_t *c, pthread_mutex_t *m, int64_t deadline) {
   Th *me = ths[my_id];
+  TS_REL(m);
   mxs[m].owner = -1;
   me->st = B_COND; me->obj = c; me->cond_mutex = m; me->signaled = false; me->timed_out = false; me->deadline = deadline;
   schedule();
   bool to = me->timed_out;
   me->timed_out = false; me->signaled = false;
+  TS_ACQ(m);
   return to ? ETIMEDOUT : 0;
 }
 extern "C" int pthread_cond_wait(pthread_cond_t *c, pthread_mutex_t *m) {
@@ -303,6 +339,7 @@ extern "C" ssize_t read(int fd, void *buf, size_t n) {
     yield_point();
     if (!efd_counter) { errno = EAGAIN; return -1; }
     uint64_t v = efd_counter; efd_counter = 0; memcpy(buf, &v, 8);
+    TS_ACQ(&efd_counter);
     return 8;
   }
   if (sim_on && fd == 0) {
@@ -324,6 +361,7 @@ extern "C" ssize_t write(int fd, const void *buf, size_t n) {
     yield_point();
     uint64_t v; memcpy(&v, buf, 8);
     if (efd_counter) stats["eventfd_write_onto_nonzero"]++;
+    TS_REL(&efd_counter);
     efd_counter += v;
     yield_point();
     return 8;
@@ -390,6 +428,15 @@ static void run_prog(int idx) {
     else if (n == "sleep") { struct timespec ts; long us = atol(o.a[0].c_str()); ts.tv_sec = us / 1000000; ts.tv_nsec = (us % 1000000) * 1000; nanosleep(&ts, NULL); }
     else if (n == "enq") { bool r = async_queue_enqueue(q, o.a[0].c_str(), o.a[0].size() + 1); ev("enq %s ret=%d", o.a[0].c_str(), (int)r); }
     else if (n == "deq") { char b[256]; size_t sz = 0; bool r = async_queue_dequeue(q, b, sizeof b, &sz); ev("deq ret=%d %s", (int)r, r ? b : "-"); }
+    else if (n == "drain") {   // drain <n>: dequeue until n messages have been received (the consumer keeps up with blocked writers)
+      long want = atol(o.a[0].c_str()), have = 0;
+      for (int tries = 0; have < want && tries < 20000; tries++) {
+        char b[256]; size_t sz = 0;
+        if (async_queue_dequeue(q, b, sizeof b, &sz)) { have++; ev("deq ret=1 %s", b); }
+        else { struct timespec ts = {0, 100000}; nanosleep(&ts, NULL); }
+      }
+      ev("drain want=%ld have=%ld", want, have);
+    }
     else if (n == "qstats") { async_queue_stats_t st; memset(&st, 0, sizeof st); async_queue_get_stats(q, &st); ev("qstats size=%zu enq=%llu deq=%llu drop=%llu", st.current_size, (unsigned long long)st.enqueue_count, (unsigned long long)st.dequeue_count, (unsigned long long)st.dropped_count); }
     else if (n == "wcreate") { worker = async_worker_create(worker_proc, NULL, 0); ev("wcreate %d", worker != NULL); }
     else if (n == "wstop") { async_worker_signal_stop(worker); ev("wstop"); }
@@ -461,7 +508,7 @@ static bool read_plan() {
 }
 static void on_alarm(int) { static const char m[] = "E 0 0 T- HANG wallclock\n"; resolve(); flush_ev(); real_write(1, m, sizeof m - 1); _exit(76); }
 extern "C" __attribute__((used)) const char *__asan_default_options() { return "detect_leaks=0:exitcode=77:halt_on_error=1"; }
-extern "C" __attribute__((used)) const char *__tsan_default_options() { return "exitcode=66:halt_on_error=1:report_signal_unsafe=0"; }
+extern "C" __attribute__((used)) const char *__tsan_default_options() { return "exitcode=66:halt_on_error=1:report_signal_unsafe=0:report_thread_leaks=0:ignore_interceptors_accesses=1:ignore_noninstrumented_modules=1"; }
 
 int main(int argc, char **argv) {
   resolve();
@@ -472,12 +519,27 @@ int main(int argc, char **argv) {
   planbuf = (char *)mmap(NULL, 1 << 24, PROT_READ | PROT_WRITE, MAP_PRIVATE | MAP_ANONYMOUS | MAP_NORESERVE, -1, 0);
   if (argc >= 2 && !strcmp(argv[1], "serve")) {
     while (read_plan()) {
+      if (getenv("TSIM_NOFORK")) { signal(SIGALRM, on_alarm); alarm(10); parse(); int rc = run_scenario(); char l2[64]; snprintf(l2, sizeof l2, "X exit %d\n.\n", rc); real_write(1, l2, strlen(l2)); _exit(0); }
+      char errpath[128]; snprintf(errpath, sizeof errpath, "%s/tsim-err-%08d", getenv("NSIM_TMP") ? getenv("NSIM_TMP") : "/tmp", (int)getpid());
       pid_t pid = fork();
-      if (pid == 0) { signal(SIGALRM, on_alarm); alarm(10); parse(); _exit(run_scenario()); }
+      if (pid == 0) {
+        int efd = open(errpath, O_WRONLY | O_CREAT | O_TRUNC, 0644); if (efd >= 0) { dup2(efd, 2); real_close(efd); }
+        signal(SIGALRM, on_alarm); alarm(10); parse(); _exit(run_scenario());
+      }
       int status = 0; while (waitpid(pid, &status, 0) < 0 && errno == EINTR) {}
       char line[64];
-      if (WIFSIGNALED(status)) snprintf(line, sizeof line, "X signal %d\n.\n", WTERMSIG(status)); else snprintf(line, sizeof line, "X exit %d\n.\n", WEXITSTATUS(status));
+      if (WIFSIGNALED(status)) snprintf(line, sizeof line, "X signal %d\n", WTERMSIG(status)); else snprintf(line, sizeof line, "X exit %d\n", WEXITSTATUS(status));
       real_write(1, line, strlen(line));
+      if (!(WIFEXITED(status) && WEXITSTATUS(status) == 0)) {
+        static char eb[8192]; int fd = open(errpath, O_RDONLY); ssize_t n = fd >= 0 ? real_read(fd, eb, sizeof eb - 1) : 0; if (fd >= 0) real_close(fd);
+        if (n > 0) {
+          static const char *hx = "0123456789ABCDEF"; static char out[3 * 8192 + 16]; size_t o = 0; memcpy(out, "STDERR ", 7); o = 7;
+          for (ssize_t i = 0; i < n; i++) { unsigned char c = (unsigned char)eb[i]; if (c > 0x20 && c < 0x7f && c != '%') out[o++] = (char)c; else { out[o++] = '%'; out[o++] = hx[c >> 4]; out[o++] = hx[c & 15]; } }
+          out[o++] = '\n'; real_write(1, out, o);
+        }
+      }
+      unlink(errpath);
+      real_write(1, ".\n", 2);
     }
     return 0;
   }
